@@ -1464,11 +1464,13 @@ impl Property for C10 {
         // most runs steer clear of the triggers of open known findings so that one open
         // finding does not mask the rest of the space; every 8th run does not
         // layer LW (real --watch binary, real time): thorough tier only, 48 histories
+        // (right behind the enumerated strata: L1, then L2 x 3 save styles)
+        let lw_start = c10gen::enum_count(3) * 4;
         let real_watch = tier == "thorough"
             && crate::tierb::available()
-            && index >= c10gen::enum_count(3)
-            && index < c10gen::enum_count(3) + 48 * 7
-            && (index - c10gen::enum_count(3)) % 7 == 0;
+            && index >= lw_start
+            && index < lw_start + 48 * 7
+            && (index - lw_start) % 7 == 0;
         // the last indices of a batch: L1 histories over the real file system (the real
         // `Source::FileSystem` arm through the library, in a scratch directory)
         let real_lib = index >= self.runs_for(tier) - real_lib_runs(tier);
